@@ -49,8 +49,7 @@ Definition check (f1 f2 : bool) (c : case) : verdict :=
      v_prop := prop_holds c;
      v_guards := guards [(1%Z, guard_F1 (c_cred c) && negb f1);
                          (2%Z, guard_F2 (c_cred c) && negb f2);
-                         (3%Z, guard_F3 (c_cred c) && f1);
-                         (5%Z, false)] |}.
+                         (3%Z, guard_F3 (c_cred c) && f1)] |}.   (* C05-F5: repaired, the model is not parametric in it *)
 
 (* short constructors for the generated case files *)
 Definition ex i s a g l := {| e_issuers := i; e_scopes := s; e_aud := a; e_algs := g; e_leeway := l |}.
@@ -97,7 +96,6 @@ Definition check_hist (f1 f2 f4 f6 : bool) (c : hcase) : verdict :=
                          (2%Z, existsb (fun s => guard_F2 (s_cred s)) steps && negb f2);
                          (3%Z, existsb (fun s => guard_F3 (s_cred s)) steps && f1);
                          (4%Z, guard_F4 f1 f2 steps && negb f4);
-                         (5%Z, false);
                          (6%Z, guard_F6 f1 f2 steps && negb f6)] |}.
 
 Definition hs cf con ttl tpl tplurl env now cred o attrs :=
